@@ -141,6 +141,18 @@ PROPS = {
              'non-trivial = at least 8 parts received and 3 supplied; distinct by scenario text',
         explanation='Records only appended; each record carries the state of its moment; level record = level; resource record = pool. Exactly-one-record-per-occurrence and counters = record counts decided by the record monitor and the lock-step on the full data log. PARTIAL.',
         assumptions=['well-posed layouts', 'event trace printing (trace=True) not modelled: the dispatch log is compared instead']),
+    'C20': dict(
+        vfile='Props/C20.v', ties=['Tie/TieEnv.v', 'Tie/TieSys.v'],
+        families=[('sys', 800, 20000, 'small', 'large')],
+        rule='F_sys scenarios: system creations, asset creations of every registered kind (sources, handlers, processors, buffers, gates, batchers, sinks, maintainers, schedulers, sensors; transitory parts) '
+             'before the first run, between runs and from inside an event, simulate calls on active and superseded systems, explicit add_asset of assets of other systems, look-ups with every filter combination; '
+             'plus a twin experiment per scenario (line / buffer / maintainer / scheduler / sensor model created late vs. before the start), generated from VERIF_SEED (corpus/sys first); '
+             'non-trivial = an asset was created while its system was already running and a simulate succeeded; distinct by scenario text',
+        explanation='Registry invariant and operation theorems for every operation sequence; late creation = early creation operation for operation whenever registration is the last effect of creation '
+                    '(kernel-checked on the regenerated class IR of every asset class); the original code violated this (coq/Findings/C20_refuted.v), repaired by a fix: commit; '
+                    'tie = fact tables (class IR, metaclass IR, hierarchy, defaults) + lock-step on the real System/Asset classes + twin-behaviour monitor.',
+        assumptions=['what initialize() and the constructors do is abstracted to the order of their attribute reads/writes and calls (tools/pyfacts.py IR)',
+                     'Cms (takes another asset as argument) not generated by the lock-step']),
 }
 
 LEVELS = {
@@ -232,9 +244,15 @@ LEVELS = {
         text='PARTIAL. Machine-checked: the record list only grows during an action; receive/level/failure/resource records carry the state of their moment; level = stored parts. Exactly-one-record-per-occurrence and counters = record counts decided by the record monitor and lock-step over the full data log after every event.',
         design_ref='DESIGN.md section 8, C15', technique='Coq proof (append-only log over all world steps, record payload lemmas) + lock-step correspondence on the full data log + record monitor',
         note='Partial: counting clauses not theorems.'),
+    'C20': dict(
+        text='Machine-checked Coq theorems: registry invariant for every operation sequence (registered with the most recently created system only, initialised at most once, first simulate initialises every registered asset exactly once, '
+             'continuing never re-initialises, only the latest system simulates, look-up = filter by all given criteria); late creation equals early creation operation for operation for every class whose creation ends with the registration, '
+             'and that condition is kernel-checked on the class IR regenerated from /repo on every run. The original code violated it (C20_refuted.v), repaired by fix: 5b382da.',
+        design_ref='DESIGN.md section 8, C20', technique='Coq proof (registry state-machine invariant; trace equality of late vs early creation over the regenerated class IR) + lock-step correspondence with System/Asset + twin-behaviour monitor',
+        note='Trusted: Coq kernel, pyfacts.py (statement IR of constructors/initialisers), extraction + OCaml driver, Python harness. Behaviour inside initialize() is abstracted to its operation sequence; the twin monitor compares real behaviour.'),
 }
 
 NOT_APPLICABLE = [
     dict(property_id=p, reason='check under construction in this round (model layer not yet built); see DESIGN.md section 12 build order')
-    for p in ['C04', 'C14', 'C20']
+    for p in ['C04', 'C14']
 ]
